@@ -328,10 +328,27 @@ def G3_sources(ctx):
     ctx.ob('G3', 'std::env::var', 'who-reads-the-environment', env == ['env_or@config.rs'], f'{env}', what='environment variables are read once, in GrevmConfig::from_env')
     ap = who(lambda c: 'available_parallelism' in c)
     ctx.ob('G3', 'available_parallelism', 'who-reads-the-core-count', ap == ['default@config.rs'], f'{ap}')
-    clocks = who(lambda c: c.startswith('std::time::Instant::now') or c.endswith('Instant::elapsed'))
-    allowed = {'run_finality_loop@scheduler.rs', 'run_commit_loop@scheduler.rs', 'parallel_execute_inner@scheduler.rs', 'run_once@control.rs', 'with_metrics@parallel_state.rs',
-               'required_after@reserve.rs', 'sender_index@reserve.rs'}
-    ctx.ob('G3', 'std::time::Instant', 'who-reads-the-clock', set(clocks) <= allowed, f'{clocks}', what='clock values feed metrics, tracing and stall detection only')
+    # clock values must not decide anything except the stall warning
+    bad = []
+    n_clock = 0
+    for b in facts.production():
+        txt = json.dumps(b['blocks'])
+        if 'std::time::Instant' not in txt:
+            continue
+        n_clock += 1
+        f = facts.fn(b)
+        try:
+            ps = f.paths(budget=30000)
+        except PathBudget:
+            continue
+        for p in ps:
+            for a in p.events:
+                if a.kind == 'atom' and ('Instant::elapsed' in show(a.d['term']) or 'Instant::now' in show(a.d['term'])):
+                    if not ('STALL_TIMEOUT' in show(a.d['term']) and b['fn'].endswith('run_finality_loop')):
+                        bad.append((b['fn'], a.line))
+    ctx.count('G3.functions-reading-the-clock', n_clock)
+    ctx.ob('G3', 'std::time::Instant', 'no-decision-depends-on-the-clock', n_clock >= 3 and not bad, f'{sorted(set(bad))[:4]}',
+           what='clock values feed metrics, tracing and the stall warning only; a branch on elapsed time makes results timing-dependent')
     # unordered iteration sites
     sites = collections.Counter()
     for b in facts.production():
@@ -426,6 +443,15 @@ def L1_lock_order(ctx):
                         if hc:
                             same_obj = strip(g[1]) == strip(e.d['on']) if g[1] is not None else False
                             direct_edges[(hc, c)].append((b['fn'], e.line, same_obj, g[0], e.d['cls']))
+                if e.kind == 'call' and e.held and re.search(r'DashMap(::<[^>]*>)?::\w+$', e.d['callee']) and e.d['args']:
+                    c = lock_class(e.d['args'][0])
+                    for g in e.held:
+                        hc = lock_class(g[1])
+                        if c and hc == c and g[1] is not None and strip(g[1]) == strip(e.d['args'][0]) and g[0].startswith('dashmap') \
+                                and not (e.d.get('result') is not None and any(gg[2] == (e.bb,) for gg in [g])):
+                            direct_edges[(hc, c)].append((b['fn'], e.line, True, g[0], 'dashmap-call:' + e.d['callee'].split('::')[-1]))
+                if e.kind == 'acquire':
+                    pass
                 elif e.kind == 'call' and e.held:
                     hcs = {lock_class(g[1]) for g in e.held} - {None}
                     if hcs:
